@@ -47,6 +47,12 @@ declarations:
 - decl: int f27(const std::string & s, int n = 1)
 - decl: long long f23(long long a)
 - decl: long f24(long a, size_t n)
+- decl: class Late
+  declarations:
+  - decl: int peek() const
+  - decl: Late(int v)
+  - decl: Late()
+  - decl: Late(const std::string & s, int k = 2)
 - decl: class Cls
   declarations:
   - decl: Cls(int v)
@@ -82,6 +88,7 @@ double f27(double x, int n = 1);
 int f27(const std::string &s, int n = 1);
 long long f23(long long a);
 long f24(long a, size_t n);
+class Late { public: int value; int peek() const; explicit Late(int v); Late(); Late(const std::string &s, int k = 2); };
 class Cls { public: int value; explicit Cls(int v); explicit Cls(const std::string &s); Cls(); ~Cls(); int add(int a); int add(const std::string &s); int get() const; void set(int v); int scale(int k = 2); int mix(int a, double b); };
 #endif
 """
@@ -108,6 +115,10 @@ double f27(double x, int n) { IN("f27(double,int)"); vt_dbl(x); vt_int(n); vt_en
 int f27(const std::string &s, int n) { IN("f27(const std::string&,int)"); vt_str(s.c_str(), (long)s.size()); vt_int(n); vt_end(); int rv = 700 + (int)s.size() * n; OUT("f27(const std::string&,int)"); vt_int(rv); vt_end(); return rv; }
 long long f23(long long a) { IN("f23(long long)"); vt_int((long)a); vt_end(); long long rv = a * 2 + 1; OUT("f23(long long)"); vt_int((long)rv); vt_end(); return rv; }
 long f24(long a, size_t n) { IN("f24(long,size_t)"); vt_int(a); vt_int((long)n); vt_end(); long rv = a + (long)n; OUT("f24(long,size_t)"); vt_int(rv); vt_end(); return rv; }
+int Late::peek() const { IN("Late::peek()"); vt_obj(this); vt_end(); int rv = value; OUT("Late::peek()"); vt_int(rv); vt_end(); return rv; }
+Late::Late(int v) : value(v) { IN("Late::Late(int)"); vt_int(v); vt_end(); OUT("Late::Late(int)"); vt_obj(this); vt_end(); }
+Late::Late() : value(-3) { IN("Late::Late()"); vt_end(); OUT("Late::Late()"); vt_obj(this); vt_end(); }
+Late::Late(const std::string &s, int k) : value((int)s.size() * k) { IN("Late::Late(const std::string&,int)"); vt_str(s.c_str(), (long)s.size()); vt_int(k); vt_end(); OUT("Late::Late(const std::string&,int)"); vt_obj(this); vt_end(); }
 Cls::Cls(int v) : value(v) { IN("Cls::Cls(int)"); vt_int(v); vt_end(); OUT("Cls::Cls(int)"); vt_obj(this); vt_end(); }
 Cls::Cls(const std::string &s) : value((int)s.size() + 50) { IN("Cls::Cls(const std::string&)"); vt_str(s.c_str(), (long)s.size()); vt_end(); OUT("Cls::Cls(const std::string&)"); vt_obj(this); vt_end(); }
 Cls::Cls() : value(-7) { IN("Cls::Cls()"); vt_end(); OUT("Cls::Cls()"); vt_obj(this); vt_end(); }
@@ -251,6 +262,9 @@ FUNCS = [
     ("f27", "module", 0, [("f27(double,int)", ["dbl", "int"], "dbl", 1), ("f27(const std::string&,int)", ["str", "int"], "int", 1)]),
     ("f23", "module", 0, [("f23(long long)", ["int"], "int", 0)]),
     ("f24", "module", 0, [("f24(long,size_t)", ["int", "int"], "int", 0)]),
+    # a class whose constructors are declared after a method
+    ("Late", "module", 0, [("Late::Late(int)", ["int"], "obj", 0), ("Late::Late()", [], "obj", 0),
+                           ("Late::Late(const std::string&,int)", ["str", "int"], "obj", 1)]),
     ("Cls", "module", 0, [("Cls::Cls(int)", ["int"], "obj", 0), ("Cls::Cls(const std::string&)", ["str"], "obj", 0),
                           ("Cls::Cls()", [], "obj", 0)]),
     ("add", "Cls.metatable", 1, [("Cls::add(int)", ["int"], "int", 0), ("Cls::add(const std::string&)", ["str"], "int", 0)]),
@@ -266,6 +280,7 @@ LT = {"int": "number", "dbl": "number", "str": "string", "bool": "boolean", "obj
 DEFAULTS = {"f13(int,int)": [{"t": "i", "v": [3]}, {"t": "i", "v": [4]}],
             "f17(double,int,bool)": [None, {"t": "i", "v": [7]}, {"t": "b", "v": [1]}],
             "Cls::scale(int)": [{"t": "i", "v": [2]}],
+            "Late::Late(const std::string&,int)": [None, {"t": "i", "v": [2]}],
             "f27(double,int)": [None, {"t": "i", "v": [1]}], "f27(const std::string&,int)": [None, {"t": "i", "v": [1]}],
             **{"k%s(%s,int)" % (_tag, _T): [None, {"t": "i", "v": [1]}] for _tag, _T, _ty, _log in LKINDS},
             "f19(double,int,int,int)": [None, None, {"t": "i", "v": [0]}, {"t": "i", "v": [1]}]}
